@@ -3,7 +3,9 @@
    Waiter::{try,timed,blocking}_wait of iceoryx2-cal event::common over the bit set (u8 words)
    or the counting bit set (u64 counters), or one operation of an abstract trigger (token
    counter with capacity tc, None = unbounded; the number of tokens a successful wait and
-   empty_buffer leave is the parameter po).  Thread 0 is the listener, every other thread a
+   empty_buffer leave is the parameter po).  rp = true is the current protocol (second reset of the
+   notification state after empty_buffer, /repo c0b284e), rp = false the protocol before that repair.
+   Thread 0 is the listener, every other thread a
    notifier; any number of threads, any programs, any schedule (list of thread ids), any
    event_id_max (c = event_id_max + 1), sequentially consistent interleaving.
    Ghost: notified_total / delivered_total per id, covered (notified_total at the last Drain step
@@ -15,8 +17,8 @@ Open Scope N_scope.
 
 (* ---- no phantom event ---- *)
 (* never more occurrences delivered than notified, for every id, at every reachable state *)
-Theorem c05_no_phantom : forall k c tc po pd lp np ff g ls i,
-  0 < c -> reachable step (init k c tc po pd lp np ff) (g, ls) ->
+Theorem c05_no_phantom : forall rp k c tc po pd lp np ff g ls i,
+  0 < c -> reachable step (init rp k c tc po pd lp np ff) (g, ls) ->
   delivered_total g i <= notified_total g i.
 Proof. exact ev_no_phantom. Qed.
 Print Assumptions c05_no_phantom.
@@ -24,8 +26,8 @@ Print Assumptions c05_no_phantom.
 (* whatever a Drain step of word w would report in a reachable state -- the step reports exactly
    `reports (kind g) w (words g w)` -- is an id of that word with that many pending occurrences,
    and that id was notified (lost g i = 0 unless the u64 counter of i wrapped) *)
-Theorem c05_reported_was_notified : forall k c tc po pd lp np ff g ls w i n,
-  0 < c -> reachable step (init k c tc po pd lp np ff) (g, ls) ->
+Theorem c05_reported_was_notified : forall rp k c tc po pd lp np ff g ls w i n,
+  0 < c -> reachable step (init rp k c tc po pd lp np ff) (g, ls) ->
   In (i, n) (reports (kind g) w (words g w)) ->
   0 < n /\ n = pend (kind g) (words g) i /\ widx (kind g) i = w /\ n <= notified_total g i + two64 * lost g i.
 Proof. exact ev_reported_was_notified. Qed.
@@ -34,8 +36,8 @@ Print Assumptions c05_reported_was_notified.
 (* ---- merged, never dropped ---- *)
 (* CountingBitSet: delivered + pending = notified, up to the 2^64 wrap-arounds of the counter
    (lost); below the counter bound (hypothesis: fewer than 2^64 undelivered occurrences) exactly *)
-Theorem c05_counting_conservation : forall k c tc po pd lp np ff g ls i,
-  0 < c -> reachable step (init k c tc po pd lp np ff) (g, ls) -> kind g = ECounting ->
+Theorem c05_counting_conservation : forall rp k c tc po pd lp np ff g ls i,
+  0 < c -> reachable step (init rp k c tc po pd lp np ff) (g, ls) -> kind g = ECounting ->
   delivered_total g i + pend (kind g) (words g) i + two64 * lost g i = notified_total g i /\
   (notified_total g i - delivered_total g i < two64 ->
    delivered_total g i + pend (kind g) (words g) i = notified_total g i).
@@ -44,8 +46,8 @@ Print Assumptions c05_counting_conservation.
 
 (* BitSet: the bit of i is set exactly when an activation of i took effect after the last Drain
    step of i's word; reports are merged (at most one per Drain), never more than activations *)
-Theorem c05_merge_not_drop_bitset : forall k c tc po pd lp np ff g ls i,
-  0 < c -> reachable step (init k c tc po pd lp np ff) (g, ls) -> kind g = EBitSet ->
+Theorem c05_merge_not_drop_bitset : forall rp k c tc po pd lp np ff g ls i,
+  0 < c -> reachable step (init rp k c tc po pd lp np ff) (g, ls) -> kind g = EBitSet ->
   (pend (kind g) (words g) i = 1 <-> covered g i < notified_total g i) /\ pend (kind g) (words g) i <= 1 /\
   delivered_total g i <= covered g i.
 Proof. exact ev_bitset_pending_iff. Qed.
@@ -57,8 +59,8 @@ Print Assumptions c05_merge_not_drop_bitset.
    Hence the first listener call -- try_wait, timed_wait or blocking_wait, all of which drain every
    word -- whose Drain of i's word comes after the activation reports i: polling and bounded
    timed waits never lose an event, they only delay it. *)
-Theorem c05_merge_not_drop : forall k c tc po pd lp np ff cf t cf' es i,
-  0 < c -> reachable step (init k c tc po pd lp np ff) cf ->
+Theorem c05_merge_not_drop : forall rp k c tc po pd lp np ff cf t cf' es i,
+  0 < c -> reachable step (init rp k c tc po pd lp np ff) cf ->
   step1 step t cf = Some (cf', es) ->
   0 < pend (kind (fst cf)) (words (fst cf)) i -> pend (kind (fst cf)) (words (fst cf)) i + 1 < two64 ->
   0 < pend (kind (fst cf')) (words (fst cf')) i \/
@@ -69,8 +71,8 @@ Print Assumptions c05_merge_not_drop.
 
 (* a notifier between its activation of i and its return: a Drain step has already taken that
    activation, or i is pending *)
-Theorem c05_activation_pending_or_taken : forall k c tc po pd lp np ff g ls t i,
-  0 < c -> reachable step (init k c tc po pd lp np ff) (g, ls) -> kind g = EBitSet ->
+Theorem c05_activation_pending_or_taken : forall rp k c tc po pd lp np ff g ls t i,
+  0 < c -> reachable step (init rp k c tc po pd lp np ff) (g, ls) -> kind g = EBitSet ->
   (at_pc (ls t) = NCasIP i \/ at_pc (ls t) = NTrig i \/ at_pc (ls t) = NCasPN i) ->
   my_idx (ls t) <= covered g i \/ pend (kind g) (words g) i = 1.
 Proof. exact ev_bitset_my_activation. Qed.
@@ -85,68 +87,147 @@ Proof. exact ev_blocked_only_in_blocking_wait. Qed.
 Print Assumptions c05_blocked_only_in_blocking_wait.
 
 (* ---- no lost wake-up ---- *)
-(* the full clause: whenever the listener sleeps (blocking wait, empty trigger), no returned
-   notification is undelivered.  FALSE of the faithful model and of the implementation: *)
-Definition c05_no_lost_wakeup_full : Prop :=
-  forall k c tc po pd lp np ff cf,
-  0 < c -> reachable step (init k c tc po pd lp np ff) cf -> asleep cf -> forall i, ~ undelivered (fst cf) i.
-
-(* witness (known finding event:lost-wakeup-notified-empty-trigger): listener [try_wait;
-   blocking_wait], ONE notifier [notify 0; notify 0], counting bit set, 15 accesses *)
-Definition f17_np (u : nat) : list N := match u with O => [0; 0] | _ => [] end.
-Definition f17_init : cfg egst elst := init ECounting 1 None pol_model 56 [WTry; WBlock] f17_np (fun _ => false).
-Definition f17_sched : list nat := [0;0;0; 1;1;1;1; 0;0;0;0; 1; 1;1;1]%nat.
-Definition f17_cfg : cfg egst elst := fst (run step f17_sched f17_init).
-
-Theorem c05_no_lost_wakeup_refuted : ~ c05_no_lost_wakeup_full.
-Proof.
-  intros H.
-  assert (Hr : reachable step f17_init f17_cfg) by (exists f17_sched; unfold f17_cfg; reflexivity).
-  assert (Hc : 0 < 1) by reflexivity.
-  apply (H ECounting 1 None pol_model 56 [WTry; WBlock] f17_np (fun _ => false) f17_cfg Hc Hr) with (i := 0).
-  - split; vm_compute; reflexivity.
-  - vm_compute. reflexivity.
-Qed.
-Print Assumptions c05_no_lost_wakeup_refuted.
-
-(* what the witness state is: both notifies have returned (the notifier is finished), id 0 is
-   pending with count 1 and undelivered, the flag says Notified, the trigger is empty, the
-   listener sleeps, and no thread can move: a deadlock, not a transient *)
-Example c05_f17_witness_state :
-  prog (snd f17_cfg 1%nat) = [] /\ at_pc (snd f17_cfg 1%nat) = PIdle /\
-  pend ECounting (words (fst f17_cfg)) 0 = 1 /\ undelivered (fst f17_cfg) 0 /\
-  bad_window f17_cfg /\
-  step1 step 0 f17_cfg = None /\ step1 step 1 f17_cfg = None.
-Proof. vm_compute. repeat split; reflexivity. Qed.
-Print Assumptions c05_f17_witness_state.
-
-(* the wake-up invariant (inductive, all schedules): an undelivered returned notification is
-   always covered by a promise -- the flag is Notified (the listener's next state check drains),
-   or the listener is between its wake-up and the Drain of the id's word *)
-Theorem c05_wakeup_invariant : forall k c tc po pd lp np ff cf i,
-  0 < c -> reachable step (init k c tc po pd lp np ff) cf -> undelivered (fst cf) i ->
+(* the wake-up invariant (inductive, all schedules, both protocols): an undelivered returned
+   notification is always covered by a promise -- the flag is Notified (the listener's next state
+   check drains), or the listener is between its wake-up and the Drain of the id's word *)
+Theorem c05_wakeup_invariant : forall rp k c tc po pd lp np ff cf i,
+  0 < c -> reachable step (init rp k c tc po pd lp np ff) cf -> undelivered (fst cf) i ->
   st (fst cf) = Notified \/ in_phase (kind (fst cf)) (listener_pc cf) i.
 Proof. exact ev_wakeup_invariant. Qed.
 Print Assumptions c05_wakeup_invariant.
 
-(* the bad window (flag Notified, trigger empty, listener in its blocking wait) is the ONLY way
-   to lose a wake-up *)
-Theorem c05_lost_wakeup_only_in_bad_window : forall k c tc po pd lp np ff cf i,
-  0 < c -> reachable step (init k c tc po pd lp np ff) cf -> asleep cf -> undelivered (fst cf) i -> bad_window cf.
+(* FULL clause, current protocol (hypotheses: trigger capacity > 0; no thread crashes -- a crashed
+   notifier is a thread that is never scheduled again, see c05_crash_residual_window):
+   whenever the listener is at a wait on the trigger while a notification whose notify returned
+   Ok is undelivered, a token is in the trigger or a notifier is between its state CAS and its
+   trigger post (Tok) *)
+Theorem c05_no_lost_wakeup : forall k c tc po pd lp np ff cf m i,
+  0 < c -> tc <> Some 0 -> reachable step (init true k c tc po pd lp np ff) cf ->
+  listener_pc cf = LWait m -> undelivered (fst cf) i ->
+  0 < trig (fst cf) \/ exists t j, at_pc (snd cf t) = NTrig j.
+Proof. exact ev_no_lost_wakeup. Qed.
+Print Assumptions c05_no_lost_wakeup.
+
+(* the same for a notify that has not returned yet but is past its trigger post *)
+Theorem c05_inflight_has_token : forall k c tc po pd lp np ff cf m t i,
+  0 < c -> tc <> Some 0 -> reachable step (init true k c tc po pd lp np ff) cf ->
+  listener_pc cf = LWait m -> at_pc (snd cf t) = NCasPN i -> covered (fst cf) i < my_idx (snd cf t) ->
+  0 < trig (fst cf) \/ exists u j, at_pc (snd cf u) = NTrig j.
+Proof. exact ev_inflight_has_token. Qed.
+Print Assumptions c05_inflight_has_token.
+
+(* a sleeping listener with an undelivered notification is never stuck: an in-flight post is
+   enabled and puts a token into the trigger *)
+Theorem c05_sleeping_listener_gets_token : forall k c tc po pd lp np ff cf i,
+  0 < c -> tc <> Some 0 -> reachable step (init true k c tc po pd lp np ff) cf ->
+  asleep cf -> undelivered (fst cf) i ->
+  exists t j cf' es, at_pc (snd cf t) = NTrig j /\ step1 step t cf = Some (cf', es) /\ 0 < trig (fst cf').
+Proof. exact ev_sleeping_listener_gets_token. Qed.
+Print Assumptions c05_sleeping_listener_gets_token.
+
+(* in particular: no terminal state (no thread can move) has a sleeping listener and an
+   undelivered notification -- the statement that is refuted for the old protocol below *)
+Theorem c05_no_terminal_lost_wakeup : forall k c tc po pd lp np ff cf i,
+  0 < c -> tc <> Some 0 -> reachable step (init true k c tc po pd lp np ff) cf ->
+  (forall t, step1 step t cf = None) -> asleep cf -> ~ undelivered (fst cf) i.
+Proof. exact ev_no_terminal_lost_wakeup. Qed.
+Print Assumptions c05_no_terminal_lost_wakeup.
+
+(* non-vacuity: in the current protocol the configuration "flag Notified, trigger empty, listener
+   in its blocking wait, a returned notification undelivered" IS reachable (notifier 1's late
+   Pending -> Notified CAS promotes the Pending of notifier 2), with notifier 2 at its post *)
+Definition nv3_np (u : nat) : list N := match u with O => [0; 0] | S O => [0] | _ => [] end.
+Definition nv3_init : cfg egst elst := init true ECounting 1 None pol_model 56 [WTry; WBlock] nv3_np (fun _ => false).
+Definition nv3_sched : list nat := [0;0;0; 1;1;1;1; 0;0;0;0;0; 2;2;2; 1; 1;1;1]%nat.
+Example c05_no_lost_wakeup_nonvacuous :
+  let cf := fst (run step nv3_sched nv3_init) in
+  reachable step nv3_init cf /\ asleep cf /\ undelivered (fst cf) 0 /\ bad_window cf /\ at_pc (snd cf 2%nat) = NTrig 0.
+Proof.
+  cbv zeta. split; [exists nv3_sched; reflexivity|].
+  split; [split; vm_compute; reflexivity|]. split; [vm_compute; reflexivity|].
+  split; [split; [split|]; vm_compute; reflexivity|]. vm_compute. reflexivity.
+Qed.
+Print Assumptions c05_no_lost_wakeup_nonvacuous.
+
+(* residual window, NOT covered by the theorems above (they assume that no thread crashes): if
+   notifier 1 dies at its post -- after its Idle -> Pending CAS, fault model of C04 -- in this reachable
+   state, nobody else can move: notifier 2's late Pending -> Notified CAS has promoted notifier 1's
+   Pending, notifier 2's second notify has seen Notified and returned Ok without a trigger, the
+   listener sleeps.  (The same holds for the old protocol; a repair needs a per-notifier epoch in
+   the state word.) *)
+Definition cr_np (u : nat) : list N := match u with O => [0] | S O => [0; 0] | _ => [] end.
+Definition cr_init : cfg egst elst := init true ECounting 1 None pol_model 56 [WTry; WBlock] cr_np (fun _ => false).
+Definition cr_sched : list nat := [0;0;0; 1;1; 2;2;2;2; 0;0;0;0;0; 1; 2; 2;2;2]%nat.
+Example c05_crash_residual_window :
+  let cf := fst (run step cr_sched cr_init) in
+  reachable step cr_init cf /\ at_pc (snd cf 1%nat) = NTrig 0 /\
+  asleep cf /\ undelivered (fst cf) 0 /\ st (fst cf) = Notified /\
+  step1 step 0 cf = None /\ step1 step 2 cf = None /\ (forall t, (3 <= t)%nat -> step1 step t cf = None).
+Proof.
+  cbv zeta. split; [exists cr_sched; reflexivity|].
+  split; [vm_compute; reflexivity|]. split; [split; vm_compute; reflexivity|].
+  split; [vm_compute; reflexivity|]. split; [vm_compute; reflexivity|].
+  split; [vm_compute; reflexivity|]. split; [vm_compute; reflexivity|].
+  intros t Ht. destruct t as [|[|[|t]]]; try lia. vm_compute. reflexivity.
+Qed.
+Print Assumptions c05_crash_residual_window.
+
+(* ---- the protocol before the repair (rp = false): fixed finding event:lost-wakeup-notified-empty-trigger ---- *)
+Definition c05_old_no_terminal_lost_wakeup : Prop :=
+  forall k c tc po pd lp np ff cf i,
+  0 < c -> tc <> Some 0 -> reachable step (init false k c tc po pd lp np ff) cf ->
+  (forall t, step1 step t cf = None) -> asleep cf -> ~ undelivered (fst cf) i.
+
+(* witness: listener [try_wait; blocking_wait], ONE notifier [notify 0; notify 0], counting bit set, 15 accesses *)
+Definition f17_np (u : nat) : list N := match u with O => [0; 0] | _ => [] end.
+Definition f17_init : cfg egst elst := init false ECounting 1 None pol_model 56 [WTry; WBlock] f17_np (fun _ => false).
+Definition f17_sched : list nat := [0;0;0; 1;1;1;1; 0;0;0;0; 1; 1;1;1]%nat.
+Definition f17_cfg : cfg egst elst := fst (run step f17_sched f17_init).
+
+Theorem c05_old_protocol_lost_wakeup : ~ c05_old_no_terminal_lost_wakeup.
+Proof.
+  intros H.
+  assert (Hr : reachable step f17_init f17_cfg) by (exists f17_sched; unfold f17_cfg; reflexivity).
+  assert (Hc : 0 < 1) by reflexivity.
+  assert (Htc : @None N <> Some 0) by discriminate.
+  apply (H ECounting 1 None pol_model 56 [WTry; WBlock] f17_np (fun _ => false) f17_cfg 0 Hc Htc Hr).
+  - intros t. destruct t as [|[|t]]; vm_compute; reflexivity.
+  - split; vm_compute; reflexivity.
+  - vm_compute. reflexivity.
+Qed.
+Print Assumptions c05_old_protocol_lost_wakeup.
+
+(* regression: the same programs and the same schedule shape on the current protocol (the second
+   reset is the extra listener step) deliver both occurrences and terminate *)
+Definition f17_init_new : cfg egst elst := init true ECounting 1 None pol_model 56 [WTry; WBlock] f17_np (fun _ => false).
+Definition f17_sched_new : list nat := [0;0;0; 1;1;1;1; 0;0;0;0;0; 1; 1;1;1;1;1; 0;0;0;0;0;0]%nat.
+Example c05_old_witness_now_delivers :
+  let cf := fst (run step f17_sched_new f17_init_new) in
+  notified_total (fst cf) 0 = 2 /\ delivered_total (fst cf) 0 = 2 /\ ~ undelivered (fst cf) 0 /\
+  prog (snd cf 0%nat) = [] /\ at_pc (snd cf 0%nat) = PIdle /\ prog (snd cf 1%nat) = [] /\ at_pc (snd cf 1%nat) = PIdle.
+Proof.
+  cbv zeta. split; [vm_compute; reflexivity|]. split; [vm_compute; reflexivity|].
+  split; [intros H; vm_compute in H; discriminate|]. vm_compute. repeat split; reflexivity.
+Qed.
+Print Assumptions c05_old_witness_now_delivers.
+
+(* in either protocol the configuration flag Notified / trigger empty / listener in its blocking
+   wait is the only one in which a sleeping listener coexists with an undelivered notification, *)
+Theorem c05_lost_wakeup_only_in_bad_window : forall rp k c tc po pd lp np ff cf i,
+  0 < c -> reachable step (init rp k c tc po pd lp np ff) cf -> asleep cf -> undelivered (fst cf) i -> bad_window cf.
 Proof. exact ev_lost_wakeup_only_in_bad_window. Qed.
 Print Assumptions c05_lost_wakeup_only_in_bad_window.
 
-(* the bad window is ENTERED in exactly one way: a notifier's late Pending -> Notified CAS
-   (second CAS of Handle::notify) while the listener already sleeps on the empty trigger, i.e. the
-   token that notifier posted has been consumed by the listener's empty_buffer in the meantime *)
-Theorem c05_bad_window_entry : forall k c tc po pd lp np ff cf t cf' es,
-  0 < c -> reachable step (init k c tc po pd lp np ff) cf ->
+(* and it is entered in exactly one way: a notifier's late Pending -> Notified CAS (second CAS of
+   Handle::notify) while the listener already sleeps on the empty trigger *)
+Theorem c05_bad_window_entry : forall rp k c tc po pd lp np ff cf t cf' es,
+  0 < c -> reachable step (init rp k c tc po pd lp np ff) cf ->
   step1 step t cf = Some (cf', es) -> ~ bad_window cf -> bad_window cf' ->
   asleep cf /\ st (fst cf) = Pending /\ t <> O /\ exists i, at_pc (snd cf t) = NCasPN i.
 Proof. exact ev_bad_window_entry. Qed.
 Print Assumptions c05_bad_window_entry.
 
-(* non-vacuity: step 12 of the witness schedule is such an entry *)
+(* non-vacuity: step 12 of the old witness schedule is such an entry *)
 Example c05_bad_window_entry_nonvacuous :
   let c11 := fst (run step (firstn 11 f17_sched) f17_init) in
   reachable step f17_init c11 /\ ~ bad_window c11 /\ asleep c11 /\ at_pc (snd c11 1%nat) = NCasPN 0 /\
@@ -159,37 +240,11 @@ Proof.
 Qed.
 Print Assumptions c05_bad_window_entry_nonvacuous.
 
-(* the partial clause: excluding exactly the known class, the full statement holds *)
-Theorem c05_no_lost_wakeup_partial : forall k c tc po pd lp np ff cf,
-  0 < c -> reachable step (init k c tc po pd lp np ff) cf -> ~ bad_window cf ->
-  asleep cf -> forall i, ~ undelivered (fst cf) i.
-Proof.
-  intros k c tc po pd lp np ff cf Hc Hr Hnb Ha i Hu. apply Hnb.
-  exact (ev_lost_wakeup_only_in_bad_window k c tc po pd lp np ff cf i Hc Hr Ha Hu).
-Qed.
-Print Assumptions c05_no_lost_wakeup_partial.
-
-(* non-vacuity of the partial clause: a reachable state in which the listener sleeps outside the
-   bad window while a notifier is in flight (activated, flag Pending, trigger not yet posted) *)
-Definition nv_np (u : nat) : list N := match u with O => [9] | _ => [] end.
-Definition nv_init : cfg egst elst := init EBitSet 10 None pol_model 72 [WBlock] nv_np (fun _ => false).
-Definition nv_sched : list nat := [0; 1;1;1;1]%nat.
-Example c05_no_lost_wakeup_partial_nonvacuous :
-  let cf := fst (run step nv_sched nv_init) in
-  reachable step nv_init cf /\ asleep cf /\ ~ bad_window cf /\
-  st (fst cf) = Pending /\ at_pc (snd cf 1%nat) = NTrig 9 /\ pend EBitSet (words (fst cf)) 9 = 1.
-Proof.
-  cbv zeta. split; [exists nv_sched; reflexivity|].
-  split; [split; vm_compute; reflexivity|]. split; [intros [_ H]; vm_compute in H; discriminate|].
-  vm_compute. repeat split; reflexivity.
-Qed.
-Print Assumptions c05_no_lost_wakeup_partial_nonvacuous.
-
 (* non-vacuity of the data theorems: two notifies of id 9 merged into one delivery (bit set),
    a second id pending in the other word *)
 Definition nv2_np (u : nat) : list N := match u with O => [9; 9; 0] | _ => [] end.
-Definition nv2_init : cfg egst elst := init EBitSet 10 None pol_model 72 [WTry; WTry] nv2_np (fun _ => false).
-Definition nv2_sched : list nat := [1;1;1;1;1;1; 1;1;1; 0;0;0;0;0;0;0;0; 1;1;1;1;1;1]%nat.
+Definition nv2_init : cfg egst elst := init true EBitSet 10 None pol_model 72 [WTry; WTry] nv2_np (fun _ => false).
+Definition nv2_sched : list nat := [1;1;1;1;1;1; 1;1;1; 0;0;0;0;0;0;0;0;0; 1;1;1;1;1;1]%nat.
 Example c05_data_nonvacuous :
   let cf := fst (run step nv2_sched nv2_init) in
   reachable step nv2_init cf /\
